@@ -68,9 +68,9 @@ def histories(ck):
     # many saves to one path (and to two paths in turn), a load and a call after each: the file system recycles the inode numbers of
     # replaced files, the loader and the temporary builds create and delete files in between - anything that identifies a saved build
     # by the identity of its file (device/inode, size, modification time) instead of reading it meets an old build here
-    rounds = 10 if ck.tier == "quick" else 30
+    rounds = 10 if ck.tier == "quick" else 30          # (the fixed bit pattern below has 38 entries)
     # (with two test models an old build is only visible when it belongs to the other model: the model sequences below have no period)
-    seqs = [[(r // 2) % 2 for r in range(rounds)], [int(b) for b in "0010111001101000111101011001"[:rounds]],
+    seqs = [[(r // 2) % 2 for r in range(rounds)], [int(b) for b in ("0010111001101000111101011001" + "1100010110")[:rounds]],
             [rng.randrange(2) for _ in range(rounds)]]
     for sq in seqs:
         one = []
